@@ -118,6 +118,12 @@ fn rr_case(ctx: &Ctx, case: u64, acc: &mut Acc) -> Verdict {
     for x in 0..(d + extra_d) {
         ids.push((Id::new(1000 + x as u16, r.below(3) as u8), State::Down));
     }
+    // echoes of the instance's own address under other generations (older ones cannot exist for generation 0; newer
+    // ones win the conflict): whatever is said about them they may be recorded, but never probed
+    let own_echoes = r.below(3) as usize;
+    for x in 0..own_echoes {
+        ids.push((Id::new(ME.addr, 1 + x as u8), *r.pick(&[State::Alive, State::Alive, State::Suspect, State::Down])));
+    }
     r.shuffle(&mut ids);
     let mut i = 0;
     while i < ids.len() {
@@ -132,11 +138,11 @@ fn rr_case(ctx: &Ctx, case: u64, acc: &mut Acc) -> Verdict {
         }
     }
     // take the extras out: extra actives are declared Down; extra downs are forgotten
-    let act: Vec<Id> = ids.iter().filter(|(_, s)| *s != State::Down).map(|(i, _)| *i).collect();
+    let act: Vec<Id> = ids.iter().filter(|(id, s)| *s != State::Down && id.addr != ME.addr).map(|(i, _)| *i).collect();
     for id in act.iter().take(extra_a) {
         rr.apply(vec![Member::new(*id, 0, State::Down)])?;
     }
-    let downs: Vec<Id> = ids.iter().filter(|(_, s)| *s == State::Down).map(|(i, _)| *i).collect();
+    let downs: Vec<Id> = ids.iter().filter(|(id, s)| *s == State::Down && id.addr != ME.addr).map(|(i, _)| *i).collect();
     for id in downs.iter().take(extra_d) {
         let rec = rr.node.call(Op::Timer(Timer::RemoveDown(*id)));
         ensure!(rec.res == Res::Ok, "C14/harness", "RemoveDown failed");
@@ -149,6 +155,13 @@ fn rr_case(ctx: &Ctx, case: u64, acc: &mut Acc) -> Verdict {
     }
     let members: BTreeSet<Id> = rr.node.last.active.iter().copied().collect();
     let n_now = rr.node.last.num_members;
+    if members.iter().any(|m| m.addr == ME.addr) {
+        // an identity bearing the own address is listed as active (C09's business): here, what matters is
+        // whether a probe round ever picks it
+        for _ in 0..(4 * n_now + 4) {
+            rr.round()?;
+        }
+    }
     ensure!(n_now == n && members.len() == n, "C14/harness", "built {n_now} active members, wanted {n}");
     let layout = fp(&(format!("{:?}", rr.node.last.snap.members_order), rr.node.last.snap.members_cursor));
 
@@ -212,7 +225,7 @@ pub fn check() -> Check {
     Check {
         id: "C14",
         level: "exploration",
-        rule: "membership built through apply_many/RemoveDown only (n active incl. Suspect, d Down records, extras added and removed, probe rounds interleaved so the cursor is arbitrary), then 8n+8 probe rounds with every Ping acknowledged; every window of 2n-1 consecutive rounds must contain every active member; all (n,d) with n+d<=6 systematically, n up to 12 (quick) / 40 (thorough) sampled, fresh RNG seed per case. Non-trivial: n>=2; distinct by (member order, cursor) layout at the start of the stable phase (from the hook snapshot).",
+        rule: "membership built through apply_many/RemoveDown only (n active incl. Suspect, d Down records, 0..2 echoes of the own address under newer generations in any state, extras added and removed, probe rounds interleaved so the cursor is arbitrary), then 8n+8 probe rounds with every Ping acknowledged; every window of 2n-1 consecutive rounds must contain every active member; all (n,d) with n+d<=6 systematically, n up to 12 (quick) / 40 (thorough) sampled, fresh RNG seed per case. Non-trivial: n>=2; distinct by (member order, cursor) layout at the start of the stable phase (from the hook snapshot).",
         assumptions: &["the Ack sent by the harness carries the target's recorded incarnation, so no update is applied during the stable phase (asserted)"],
         required: &["probe_rounds_checked", "windows_checked"],
         workloads: vec![Workload { name: "rr", f: rr_case, quick: 48_000, thorough: 400_000, flav: Flav::Checked }],
